@@ -207,11 +207,11 @@ _PREDEF = {"__SSE2__": "AVEL_SSE2", "__SSE3__": "AVEL_SSE3", "__SSSE3__": "AVEL_
            "__BMI2__": "AVEL_BMI2"}
 
 
-def flags_imply(cfg):
+def flags_imply(cfg, comp=None):
     """AVEL macros of every feature the compiler itself enables under the configuration's -m flags
     (-mavx512bitalg, for instance, turns on AVX-512BW): 'naming the macros explicitly' for a comparison with
     AVEL_AUTO_DETECT means naming all of these.  Independent of AVEL's own detection code."""
-    r = sh([CLANGXX, "-dM", "-E", "-x", "c++", "/dev/null"] + cfg.flags)
+    r = sh([comp or CLANGXX, "-dM", "-E", "-x", "c++", "/dev/null"] + cfg.flags)
     out = []
     for line in r.stdout.splitlines():
         parts = line.split()
@@ -220,9 +220,11 @@ def flags_imply(cfg):
     return sorted(set(out))
 
 
-def width_constants(cfg, auto):
-    """natural/max width constants and provided types as compile-time constants in IR"""
-    d = _scratch("c19w2", cfg.name, " ".join(cfg.named), "auto" if auto else "explicit")
+def width_constants(cfg, auto, comp=None):
+    """natural/max width constants and provided types as compile-time constants, read from clang's IR or from
+    g++'s assembly output (nothing is executed)"""
+    comp = comp or CLANGXX
+    d = _scratch("c19w3", cfg.name, " ".join(cfg.named), "auto" if auto else "explicit", comp)
     res = os.path.join(d, "w.json")
     if os.path.exists(res):
         with open(res) as fh:
@@ -242,16 +244,25 @@ def width_constants(cfg, auto):
     src = os.path.join(d, "t.cpp")
     with open(src, "w") as fh:
         fh.write("\n".join(lines) + "\n")
-    defs = ["-DAVEL_AUTO_DETECT"] if auto else sorted(set(cfg.defines) | {"-D" + m for m in flags_imply(cfg)})
-    r = sh([CLANGXX, "-std=c++11", "-O0", "-S", "-emit-llvm", "-I", INC, src, "-o", os.path.join(d, "t.ll")] + defs + cfg.flags)
+    defs = ["-DAVEL_AUTO_DETECT"] if auto else sorted(set(cfg.defines) | {"-D" + m for m in flags_imply(cfg, comp)})
+    if comp == CLANGXX:
+        r = sh([CLANGXX, "-std=c++11", "-O0", "-S", "-emit-llvm", "-I", INC, src, "-o", os.path.join(d, "t.ll")] + defs + cfg.flags)
+    else:
+        r = sh([comp, "-std=c++11", "-O0", "-w", "-S", "-I", INC, src, "-o", os.path.join(d, "t.s")] + defs + cfg.flags)
     if r.returncode != 0:
         out = {"error": r.stderr[-500:]}
-    else:
+    elif comp == CLANGXX:
         txt = open(os.path.join(d, "t.ll")).read()
         out = {}
         for n in names:
             m = re.search(r"@%s = .*constant i32 (\d+)" % n, txt)
             out[n] = int(m.group(1)) if m else None
+    else:
+        txt = open(os.path.join(d, "t.s")).read()
+        out = {}
+        for n in names:
+            m = re.search(r"^%s:\s*\n\s+\.(long|zero)\s+(\d+)" % n, txt, re.M)
+            out[n] = (int(m.group(2)) if m.group(1) == "long" else 0) if m else None
     with open(res, "w") as fh:
         json.dump(out, fh)
     return out
@@ -303,9 +314,12 @@ def run(tier, a=None):
                     {"command": "%s -std=c++11 -fsyntax-only -D%s %s" % (comp, m, FLAG[m] or "")})
 
     # C. AVEL_AUTO_DETECT provides the same types and widths as the explicit macros
-    outs = common.pmap(lambda c: (width_constants(c, False), width_constants(c, True)), cfgs)
-    for cfg, (ex, au) in zip(cfgs, outs):
+    pairs = [(c, comp) for c in cfgs for comp in comps]
+    outs = common.pmap(lambda cc: (width_constants(cc[0], False, cc[1]), width_constants(cc[0], True, cc[1])), pairs)
+    for (cfg, comp), (ex, au) in zip(pairs, outs):
         k = {"cfg": cfg.name, "op": "auto_detect_equivalence"}
+        if comp != CLANGXX:
+            k["compiler"] = comp
         rule = ("AVEL_AUTO_DETECT yields the same complete Vector<T,N> set and natural/max widths as naming explicitly the macro of "
                 "every feature the compiler enables under the same -m flags")
         if not cfg.has("AVEL_SSE2"):
@@ -321,6 +335,33 @@ def run(tier, a=None):
                     rule, {"flags": cfg.flags})
         else:
             res.add(k, HOLDS, "%d constants equal" % len(ex), rule)
+
+    # C2. the same comparison for every vector macro named alone with only its own -m flag (the build the statement
+    # calls "naming one macro is enough"): compilers differ in what a single flag implies (GCC's -mavx512f does not
+    # define __FMA__), so this is where a detection rule that leans on a second predefined macro shows
+    class _Alone:
+        def __init__(self, m):
+            self.name = "alone:" + m
+            self.named = [m]
+            self.defines = ["-D" + m]
+            self.flags = [FLAG[m]] if FLAG[m] else []
+    if not (a is not None and getattr(a, "configs", None)):
+        singles = [_Alone(m) for m in alone if "AVEL_SSE2" in common.macro_closure([m])]
+        pairs = [(c, comp) for c in singles for comp in comps]
+        outs = common.pmap(lambda cc: (width_constants(cc[0], False, cc[1]), width_constants(cc[0], True, cc[1])), pairs)
+        for (cfg, comp), (ex, au) in zip(pairs, outs):
+            k = {"cfg": cfg.name, "op": "auto_detect_equivalence", "compiler": comp}
+            rule = ("AVEL_AUTO_DETECT with a single -m flag yields the same complete Vector<T,N> set and natural/max widths as naming "
+                    "that macro (plus the macro of every feature the compiler enables under the flag)")
+            if "error" in ex or "error" in au:
+                res.add(k, UNDECIDED, "probe does not compile", rule)
+                continue
+            diff = [n for n in ex if ex[n] != au.get(n)]
+            if diff:
+                res.add(k, REFUTED, "differs in %s (explicit %s, auto %s)" % (diff[:4], [ex[n] for n in diff[:4]], [au.get(n) for n in diff[:4]]),
+                        rule, {"flags": cfg.flags, "compiler": comp})
+            else:
+                res.add(k, HOLDS, "%d constants equal" % len(ex), rule)
 
     # D. type-system witnesses (both compilers)
     jobs = []
